@@ -8,41 +8,41 @@ CHECKS = {
          "node membership from the scenario; HiGHS vertex solutions, tol 1e-6", "bounded exhaustive scenario enumeration + invariant on every execution", "2 C01"),
  "C02": ("E1 enumeration of portfolios over contracts/transports/storages/multi-commodity; every scenario solved by the real code and by an independent textbook LP (R2, HiGHS); equal status, equal value, plug-in feasibility of EAO's dispatch",
          "R2 reference model (ref/lp.py) calibrated on the suite's hand values; alphabets of mc/scenario.py", "bounded exhaustive scenario enumeration against a reference model (differential + plug-in oracle)", "2 C02"),
- "C04": ("E1 enumeration incl. order books, periodic/coarse, scaled/structured, plant/CHP, split; value = summary = sum DCF; per-asset DCF = -c.x on its own variable block; per-asset cash flow recomputed from dispatch by R2",
+ "C04": ("E1 enumeration incl. order books, periodic/coarse, scaled/structured, plant/CHP, split; value = summary = sum DCF; per-asset DCF = -c.x on its own variable block; per-asset cash flow recomputed from dispatch by R2; the same identities for a robust optimisation (target in three spellings) and for the two-stage stochastic problem made from the portfolio (make_slp -> optimize -> extract_output) on the K<=1 layer",
          "ownership from concatenation order / R2, never from the mapping", "bounded exhaustive scenario enumeration + accounting identities on every execution", "2 C04"),
  "C05": ("E1 x E3: one storage with <= K menu deviations x closed set of price words, in one/two-node portfolios; physical level simulated (R3) from charge/discharge of every solution; bounds, end level, rates, MIP options, reported series",
          "R3 simulator; block semantics as documented; tolerance 1e-6", "bounded exhaustive scenario enumeration + physical simulation oracle", "2 C05"),
  "C07": ("E1 enumeration of the union of all scenario spaces, build only: structural invariants of the property on every stand-alone and assembled problem (multiset equality with stand-alone assets, block placement, nodal rows)",
          "stand-alone asset problems from fresh objects as reference; c,l,u concatenated in portfolio order", "bounded exhaustive scenario enumeration + structural invariants on every assembled problem", "2 C07"),
- "C06": ("Part A: all 2^T on/off words x (min runtime, min downtime, initial state, start variables) pinned on the real plant formulation, feasible <=> R4 automaton accepts; Part B: E1 over the plant/CHP menu x price words, property predicates on every optimum and exactness against the best admissible pattern LP",
-         "R4 automaton + pattern LP; wacc 0; no start/shutdown ramp profiles yet; durations rounded up to steps", "explicit-state automaton with every accepted and rejected word replayed on the implementation + bounded exhaustive scenario enumeration", "2 C06"),
- "C08": ("E3 full product: 36 half-open intervals over 9 instants around the horizon x 14 element kinds (asset windows of every type, orders, take periods) x base portfolios x list positions; window predicate, with/without differential for out-of-horizon elements, prorating metamorphic check",
+ "C06": ("Part A: all 2^T on/off words x (min runtime, min downtime, initial state, start variables) pinned on the real plant formulation, feasible <=> R4 automaton accepts; Part B: E1 over the plant/CHP menu x price words, property predicates on every optimum and exactness against the best admissible pattern LP; Part C: start / shutdown ramp profiles (plant and CHP, hourly and half-hourly grid with ramp_freq = grid frequency, lists / arrays / lower bounds only) with a bracket oracle between the strict and the lenient reading; Part W: units existing in part of the horizon",
+         "R4 automaton + pattern LP; wacc 0; profiles only where ramp_freq equals the grid frequency; durations rounded up to steps", "explicit-state automaton with every accepted and rejected word replayed on the implementation + bounded exhaustive scenario enumeration", "2 C06"),
+ "C08": ("E3 full product: 36 half-open intervals over 9 instants around the horizon x 22 element kinds (asset windows of every type incl. scaled assets with the life time on the base asset only and structured assets with the life time on the inner assets only, orders, take periods) x base portfolios x list positions; window predicate, with/without differential for out-of-horizon elements, prorating metamorphic check",
          "documented window rule (grid points in [s,e)); R2 plug-in for the differential", "full product enumeration + differential / metamorphic oracles on every execution", "2 C08"),
- "C20": ("E1 over order lists (1..3 orders x 13 placements x side x price level), full execution, companion portfolios, book position, grids; fractions, per-step delivery, payment, value vs. one-variable-per-order reference (R2, MILP for full execution), inertness differential",
+ "C20": ("E1 over order lists (1..3 orders x 13-15 placements x side x price level), full execution, companion portfolios, book position, 7 grids incl. hourly steps across the autumn clock change; fractions, per-step delivery, payment, value vs. one-variable-per-order reference (R2, MILP for full execution), inertness differential",
          "R2 reference; fractions read from output['special']", "bounded exhaustive scenario enumeration against a reference model", "2 C20"),
- "C09": ("E3 product: 4 base portfolios (mixed wacc + two-node storage, transport + spread contract, structured asset, linked plants MIP) x all permutations x adversarial asset / node renamings x grids T=4 and T=12; value, relabelled dispatch and DCF compared with the base run (plug-in oracle under degeneracy)",
+ "C09": ("E3 product: 7 base portfolios (mixed wacc + two-node storage, transport + spread contract, structured asset, linked plants MIP, two assets sharing a coarser grid with different wacc, order book with an order behind the grid, structured asset with own life time whose wrapped portfolio is permuted as well) x all permutations x adversarial asset / node renamings x grids T=4 and T=12; value, relabelled dispatch and DCF compared with the base run (plug-in oracle under degeneracy)",
          "R2 plug-in where it models the base; otherwise uniqueness decided by two solvers", "full product enumeration + differential oracle against the base run", "2 C09"),
- "C10": ("E2 explicit-state BFS over histories of API calls (22 operations, depth 3 quick / 4 thorough) on one set of objects with shared grids, interval-dict parameters and shared inner assets; canonical state hashing with merging; after every transition the returned problem equals the one fresh objects return",
+ "C10": ("E2 explicit-state BFS over histories of API calls (25 operations, depth 3 quick / 4 thorough) on one set of objects with shared grids, interval-dict parameters and shared inner assets; canonical state hashing with merging; after every transition the returned problem equals the one fresh objects return",
          "canonical state = everything later calls can observe (mc/history.py); module-level state assumed absent", "explicit-state BFS over API histories with state merging; fresh-object equality on every transition", "2 C10"),
- "C11": ("E1 over 17 asset/portfolio classes x parameter forms (list, datetime64 array, object array, DatetimeIndex, series name) x naive/CET/UTC dates x saved before/after a set-up; load(save(x)) builds, gives the identical problem on 3 grids, save is a fixpoint, own grid keeps points and zone and still optimises",
+ "C11": ("E1 over 17 asset/portfolio classes x parameter forms (list of time stamps, list of python datetimes, datetime64 array, object array, DatetimeIndex, series name) x naive/CET/UTC dates x saved before/after a set-up; load(save(x)) builds, gives the identical problem on 3 grids, save is a fixpoint, own grid keeps points and zone and still optimises",
          "problem identity by canonical hash; exceptions agree only if the original raises the same type", "bounded exhaustive enumeration + round-trip equality on every case", "2 C11"),
  "C13": ("E1 over every asset type accepting freq / periodicity (one and two variables per step, several rows per variable) x coarse frequencies / periodicities (with duration, period >= horizon) x windows x parameter deviations on three grids; constant rate / periodic dispatch predicates, value and plug-in against the fine reference model with equality rows",
          "R2 fine model + equalities, averaged prices / limits as documented; no holding costs with coarse frequency; uniform steps in merged groups", "bounded exhaustive scenario enumeration against a reference model", "2 C13"),
- "C03": ("E3 full product of tiny OptimProblems (2 variables, <= 2 rows, every pair of row types, boolean flag sets incl. non-0/1 bounds, 4 mapping variants) x every available solver choice x the history [soft solve, normal solve], against the exact rational optimum (vertex enumeration); plus assembled portfolio problems (LP/MIP, mono/split) x solvers against HiGHS on the raw arrays",
+ "C03": ("E3 full product of tiny OptimProblems (2 variables, <= 2 rows, every pair of row types, 9 bound pairs incl. every variable fixed by its bounds, boolean flag sets incl. non-0/1 bounds, 4 mapping variants) x every available solver choice x the history [soft solve, normal solve], against the exact rational optimum (vertex enumeration); plus assembled portfolio problems (LP/MIP, mono/split) x solvers against HiGHS on the raw arrays",
          "R5 exact oracle; booleans are {0,1} as in the cvxpy interface; SCS/OSQP tolerance 2e-3; ortools interface not installed", "full product enumeration of problems x solvers against an exact oracle", "2 C03"),
  "C12": ("E1 portfolios generated three times from the same choice vector with rates and durations expressed in h, d and min; value equality for every pair of units and dispatch equality through the plug-in oracle; grids with unequal steps (DST days, months, autumn hours): must-run volumes = rate x real elapsed time, Timegrid.dt = R1, value = R2",
          "generator converts rates and durations; R1 elapsed time from UTC instants", "bounded exhaustive scenario enumeration + metamorphic oracle over all unit pairs", "2 C12"),
- "C15": ("E3 product of 3-step histories [set-up+optimise, rebuild with fixed window, re-optimise]: 8 portfolios (incl. several rows per variable, MIP, order book, coarse / periodic, structured) x all 16 index masks (array / list) + 8 date positions (datetime / date) x new prices x grid passed / set previously; exact bound equality, re-solve equality, value equality with unchanged prices",
+ "C15": ("E3 product of 3-step histories [set-up+optimise, rebuild with fixed window, re-optimise]: 11 portfolios (incl. several rows per variable, MIP, order book, coarse / periodic, structured, scaled asset with a free scale variable, CHP) x all 16 index masks (array / list) + 8 date positions (datetime / date) x new prices x grid passed / set previously; exact bound equality, re-solve equality, value equality with unchanged prices",
          "a variable belongs to the window if one of its rows does; the step at the date itself is left open", "full product enumeration of windows x portfolios over 3-step histories", "2 C15"),
- "C16": ("E1 over scaled storage / contract / must-run / take contract / transport at fixed scales and free scale, normalisations, cost rates, windows, and structured assets with one or two external nodes, own and inner windows; differential against the generator-built plain portfolio x s/S (value minus s x rate x active duration, dispatch via plug-in), free scale = best fixed scale, structured = flat portfolio",
+ "C16": ("E1 over scaled storage / contract / must-run / take contract / transport / multi-commodity contract / order book / structured asset / assets with boolean variables at fixed scales and free scale, normalisations, cost rates, windows, and structured assets with one or two external nodes, own and inner windows, an inner order book, an inner plant, a nested structured asset, an inner scaled asset; differential against the generator-built plain portfolio x s/S (value minus s x rate x active duration, dispatch via plug-in), free scale = best fixed scale, structured = flat portfolio",
          "scaled and base asset share the window; R1 active duration; R2 plug-in", "bounded exhaustive scenario enumeration + differential oracle against the equivalent plain portfolio", "2 C16"),
- "C18": ("E1 LP portfolios (incl. split mode, structured wrappers, nodes without dispatch at some steps) x EVERY (node, step) with a reported price x both signs of a small injection realised by an extra must-run contract; V(d) <= V(0) + price*d on every perturbation",
+ "C18": ("E1 LP portfolios (incl. split mode, structured wrappers, nodes without dispatch at some steps, hourly steps across the autumn clock change, a penalty contract with a cost coefficient of 1e6, split runs with intervals in which nothing or only the internal part of a structured asset is active) x EVERY (node, step) with a reported price x both signs of a small injection realised by an extra must-run contract; V(d) <= V(0) + price*d on every perturbation",
          "valid for any optimal dual (degeneracy-proof); V(d) from the real code with HiGHS; d = +-0.05", "bounded exhaustive scenario enumeration x all (node, step, sign) perturbations", "2 C18"),
  "C14": ("E1 portfolios x interval sizes {12h, d, 5h, 2d} x horizons (aligned, offset start, partial last step, autumn clock change, 3 days); split value = sum of per-interval R2 optima with original elapsed time, balance and per-interval plug-in on the original grid, equality with the unsplit optimum when nothing couples, <= unsplit with start=end storages",
          "R2 per interval (steps subset, original Dt); coupling classified from the scenario", "bounded exhaustive scenario enumeration against per-interval reference models", "2 C14"),
- "C19": ("E3 full product of grids ((start, end) over 13 instants x 6 frequencies x 3 main units x 3 zones) x 21 restriction windows x coarse frequencies 2x/3x/4x x all ordered lists of <= 2 (thorough 3) intervals over 6 instants in every container form, explicit / implicit ends, naive / aware data, against the independent grid model R1 and the interval rule",
+ "C19": ("E3 full product of grids ((start, end) over 13 instants x 6 frequencies x 3 main units x 3 zones) x 21 restriction windows x coarse frequencies 2x/3x/4x x all ordered lists of <= 2 (thorough 3) intervals over 6 instants plus one interval before and one behind the grid in every container form, explicit / implicit ends, naive / aware data, against the independent grid model R1 and the interval rule",
          "R1 (datetime + zoneinfo); implicit ends compared only where every reading agrees; partial coarse tail dropped", "full product enumeration against an independent reference model", "2 C19"),
- "C17": ("E3 full product: 5 LP portfolios (incl. transport with a cost series and a structured asset with internal variables) x every present/future boundary x all multisets of 1..3 future price patterns out of 5; EEV_j <= SLP <= mean of scenario optima, SLP = exact extensive form built from the arrays, SLP = deterministic when scenarios coincide, column count; robust: worst case >= every scenario optimum's worst case, <= smallest scenario optimum, = exact max-min LP; cost samples = cost vectors of a set-up with the same prices",
+ "C17": ("E3 full product: 9 LP portfolios (incl. transport with a cost series, a structured asset with internal variables, coarse / periodic / inactive assets) x every present/future boundary x all multisets of 1..3 future price patterns out of 7; cost vectors alone for 21 asset kinds x 6 life times; robust optimisation of tiny problems with 1..n+1 samples (also as many samples as variables); EEV_j <= SLP <= mean of scenario optima, SLP = exact extensive form built from the arrays, SLP = deterministic when scenarios coincide, column count; robust: worst case >= every scenario optimum's worst case, <= smallest scenario optimum, = exact max-min LP; cost samples = cost vectors of a set-up with the same prices",
          "all reference quantities by HiGHS on EAO's own arrays, independent of make_slp and the robust target", "full product enumeration + defining inequalities and exact extensive-form oracle", "2 C17"),
 }
 
